@@ -242,7 +242,23 @@ fn translate_fn(idx: &Index, reg: &Registry, t: &Target, texts: &BTreeMap<String
         return Err(format!("function path `{}` is ambiguous: {}", t.rust_path, ps.join(", ")));
     }
     let fi = cands[0];
-    let f = &idx.fns[fi];
+    // shadow-free copy of the function (see alpha.rs); the quoted source stays the original text
+    let mut f_owned = idx.fns[fi].clone();
+    {
+        let mut ps: Vec<String> = Vec::new();
+        for inp in &f_owned.sig.inputs {
+            match inp {
+                syn::FnArg::Receiver(_) => ps.push("self".into()),
+                syn::FnArg::Typed(pt) => {
+                    if let Pat::Ident(pi) = &*pt.pat {
+                        ps.push(pi.ident.to_string());
+                    }
+                }
+            }
+        }
+        crate::alpha::Alpha::run(&ps, &mut f_owned.block);
+    }
+    let f = &f_owned;
     let rf_owned: RegFn = match reg.fns.get(&fi) {
         Some(r) if t.arm.is_none() => r.clone(),
         _ => RegFn { idx: fi, lean: t.lean_name.clone(), fuel: false, is_extern: false },
@@ -302,7 +318,7 @@ fn translate_fn(idx: &Index, reg: &Registry, t: &Target, texts: &BTreeMap<String
                 if r.reference.is_some() && r.mutability.is_some() {
                     tr.mut_self = true;
                 }
-                params.push(("self".into(), Ty::Adt(st)));
+                params.push(("self".into(), Ty::Adt(st, vec![])));
             }
             syn::FnArg::Typed(pt) => {
                 if let syn::Type::Reference(r) = &*pt.ty {
@@ -334,7 +350,7 @@ fn translate_fn(idx: &Index, reg: &Registry, t: &Target, texts: &BTreeMap<String
     };
     // a `&mut self` method hands the updated receiver back next to its result
     let user_ret = ret.clone();
-    let ret = if tr.mut_self { Ty::Tuple(vec![ret, Ty::Adt(f.self_ty.clone().unwrap_or_default())]) } else { ret };
+    let ret = if tr.mut_self { Ty::Tuple(vec![ret, Ty::Adt(f.self_ty.clone().unwrap_or_default(), vec![])]) } else { ret };
     tr.ret_ty = user_ret.clone();
     tr.lean_name = t.lean_name.clone();
     // witness-arm target: only the selected arm of `match HasTypeWitness::WITNESS { … }`
